@@ -6,6 +6,7 @@ import (
 	"go/token"
 	"go/types"
 	"math/big"
+	"regexp"
 	"regexp/syntax"
 	"sort"
 	"strings"
@@ -786,27 +787,14 @@ func ruleTabRDN(c *Ctx, r *Rep) {
 }
 
 func ruleTabPemType(c *Ctx, r *Rep) {
-	// writers: stores of constant strings into pem.Block.Type
+	// writers: constant PEM block types (directly, or handed to a block-writing helper)
 	written := map[string]token.Pos{}
-	for _, fn := range c.Funcs {
-		for _, b := range fn.Blocks {
-			for _, ins := range b.Instrs {
-				st, ok := ins.(*ssa.Store)
-				if !ok {
-					continue
-				}
-				fa, ok := st.Addr.(*ssa.FieldAddr)
-				if !ok || fieldOfAddr(fa).Name() != "Type" || !typeIs(fa.X.Type().Underlying().(*types.Pointer).Elem(), "encoding/pem", "Block") {
-					continue
-				}
-				k, ok := st.Val.(*ssa.Const)
-				if !ok || k.Value == nil {
-					r.Undecided("shape:pem-type|"+c.FuncKey(fn), c.Pos(st.Pos()), "non-constant PEM block type")
-					continue
-				}
-				written[constant.StringVal(k.Value)] = st.Pos()
-			}
-		}
+	pw, unres := c.pemWrites()
+	for _, u := range unres {
+		r.Undecided("shape:pem-type|"+u, "", "non-constant PEM block type")
+	}
+	for _, w := range pw {
+		written[w.typ] = w.pos
 	}
 	// reader: function calling pem.Decode; equality labels and strings.Contains substrings on the block type
 	var eq, contains []string
@@ -868,36 +856,55 @@ func isPemTypeLoad(v ssa.Value) bool {
 
 func ruleTabHashLine(c *Ctx, r *Rep) {
 	ev := c.evaluator()
-	// writer: a string concatenation prefix + EncodeToString(HashSum()) + "\n"
+	// writer: the value written to the artifact buffer is prefix + EncodeToString(HashSum(current configuration)) + "\n";
+	// read off the provenance of what is written, so temporaries and helper functions do not matter
 	var prefixW, prefixR, encW, encR, termW string
 	var termR int64 = -1
 	var wPos, rPos token.Pos
+	hs := c.Method("generator/config", "CertificateContent", "HashSum")
+	pvH := c.newProv().Opaque(hs)
+	reLine := regexp.MustCompile(`^(?:conv:\[\]byte\()?\+\(\+\(K\("([^"]*)"\)\|\(\*encoding/base64\.Encoding\)\.EncodeToString\(G\(([^)]*)\)\|(.*)\)\)\|K\("([^"]*)"\)\)\)?$`)
+	for _, fn := range c.Funcs {
+		for _, ci := range callsIn(fn) {
+			name := calleeFullName(ci)
+			if !(strings.HasSuffix(name, ").Write") || strings.HasSuffix(name, ").WriteString") || name == "io.WriteString") {
+				continue
+			}
+			for _, a := range ci.Common().Args {
+				o := pvH.Origins(a)
+				isLine := false
+				for _, x := range o {
+					if strings.Contains(x, ".EncodeToString(") {
+						isLine = true
+					}
+				}
+				if !isLine {
+					continue
+				}
+				wPos = ci.Pos()
+				if len(o) != 1 {
+					r.Bad("hash-line-source|"+c.FuncKey(fn), c.Pos(ci.Pos()), "one hash line, computed from the entity's current configuration", strings.Join(o, " , "))
+					continue
+				}
+				m := reLine.FindStringSubmatch(o[0])
+				if m == nil {
+					r.Undecided("shape:hash-line|"+c.FuncKey(fn), c.Pos(ci.Pos()), "the hash line is not prefix + EncodeToString(hash) + terminator: "+o[0])
+					continue
+				}
+				prefixW, encW, termW = m[1], m[2], m[4]
+				if termW == `\n` {
+					termW = "\n"
+				}
+				hash := m[3]
+				okHash := hs != nil && strings.HasSuffix(hash, ")") && strings.Contains(hash, "HashSum(") && !strings.Contains(hash, ",") &&
+					strings.HasPrefix(hash[strings.Index(hash, "HashSum(")+len("HashSum("):], "P("+c.FuncKey(fn)+".")
+				r.Check(okHash, "hash-line-source|"+c.FuncKey(fn), c.Pos(ci.Pos()), "the hash written is HashSum() of the entity's configuration as it is now (not a remembered one)", hash)
+			}
+		}
+	}
 	for _, fn := range c.Funcs {
 		for _, ci := range callsIn(fn) {
 			switch calleeFullName(ci) {
-			case "(*encoding/base64.Encoding).EncodeToString":
-				// is the argument a HashSum() result, and is the result concatenated between constants?
-				call := ci.(*ssa.Call)
-				arg, ok := ci.Common().Args[1].(*ssa.Call)
-				if !ok || arg.Call.StaticCallee() == nil || arg.Call.StaticCallee().Name() != "HashSum" {
-					continue
-				}
-				encW = c.describe(ev, ci.Common().Args[0], 0).Name
-				wPos = ci.Pos()
-				for _, ref := range *call.Referrers() {
-					if add, ok := ref.(*ssa.BinOp); ok && add.Op == token.ADD {
-						if k, ok := add.X.(*ssa.Const); ok && k.Value != nil {
-							prefixW = constant.StringVal(k.Value)
-						}
-						for _, ref2 := range *add.Referrers() {
-							if add2, ok := ref2.(*ssa.BinOp); ok && add2.Op == token.ADD {
-								if k, ok := add2.Y.(*ssa.Const); ok && k.Value != nil {
-									termW = constant.StringVal(k.Value)
-								}
-							}
-						}
-					}
-				}
 			case "(*encoding/base64.Encoding).DecodeString":
 				// reader: in a function that also calls bytes.Index with a []byte(const) needle
 				for _, ci2 := range callsIn(fn) {
@@ -920,7 +927,7 @@ func ruleTabHashLine(c *Ctx, r *Rep) {
 		}
 	}
 	if wPos == token.NoPos {
-		r.Undecided("anchor:hash-writer", "", "no EncodeToString(HashSum()) found")
+		r.Undecided("anchor:hash-writer", "", "nothing that contains EncodeToString(…) is written to a buffer or writer")
 		return
 	}
 	if rPos == token.NoPos {
